@@ -22,7 +22,7 @@ if [ -f "$dir/demo.rs" ]; then
   cp "$dir/demo.rs" "$wt/tests/demo.rs"
   d1=$(cd "$wt" && cargo test --offline --features serde --test demo 2>&1); c1=$?
   echo "demo_with_patch: exit=$c1 $(echo "$d1" | grep -E "^test result" | head -1)" >> "$res"
-  git -C "$wt" apply -R "$dir/patch.diff"
+  git -C "$wt" checkout -- .
   d2=$(cd "$wt" && cargo test --offline --features serde --test demo 2>&1); c2=$?
   echo "demo_without_patch: exit=$c2 $(echo "$d2" | grep -E "^test result" | head -1)" >> "$res"
   rm -f "$wt/tests/demo.rs"
@@ -35,7 +35,7 @@ elif [ -f "$dir/demo.cpp" ]; then
     ASAN_OPTIONS=detect_leaks=1 "$wt/demo-bin" >/dev/null 2>&1; echo "exit=$?"
   }
   echo "demo_with_patch: $(cppdemo) (C++ program under ASan+UBSan+LSan)" >> "$res"
-  git -C "$wt" apply -R "$dir/patch.diff"
+  git -C "$wt" checkout -- .
   echo "demo_without_patch: $(cppdemo) (C++ program under ASan+UBSan+LSan)" >> "$res"
   rm -f "$wt/demo-bin"
 else
